@@ -387,7 +387,7 @@ def write_replay(prop: str, kind: str, body: Dict[str, Any]) -> Path:
 
 
 def write_evidence(ctx: Ctx, obligations: int, discharged: int, checker_cmd: str, axioms: Dict[str, List[str]], nviol: int, extra_assumptions: List[str]) -> None:
-    EVID.mkdir(exist_ok=True)
+    EVID.mkdir(parents=True, exist_ok=True)
     cov: Dict[str, Any] = {
         "obligations": obligations,
         "discharged": discharged,
